@@ -3,6 +3,7 @@ import EaselModel.Msa.Model
 import EaselModel.Msa.Model2
 import EaselModel.Msa.Model3
 import EaselModel.Msa.Sample
+import EaselModel.Msa.Expand
 import EaselModel.Msa.AbcTables
 /-! Line-protocol driver for the C15 model (alignment transformations, WUSS). Mirrors harness/h_msaops.c. -/
 open EaselModel EaselModel.Proto EaselModel.Msa
@@ -93,6 +94,34 @@ def orElse' (new old : Option Bytes) : Option Bytes := match new with | some b =
 
 def minspanOf (tbits : Nat) (alen : Nat) : Int :=
   ((Float32.ofBits (UInt32.ofNat tbits) * Float32.ofNat alen).toFloat.ceil.toInt64).toInt
+
+/-- output of the `grow` op: every slot of every per-sequence array after the expansions -/
+def growLine (g : Grow) : String := Id.run do
+  let optS := fun (a : Option (List (Option Bytes × Nat))) (i : Nat) =>
+    match a with | none => "." | some l => oStr (l.getD i (none, 0)).1 ++ ":" ++ toString (l.getD i (none, 0)).2
+  let optA := fun (a : Option (List (Option Bytes))) (i : Nat) => match a with | none => "." | some l => oStr (l.getD i none)
+  let mut s := s!"ok sqalloc={g.sqalloc}"
+  for i in [0:g.sqalloc] do
+    s := s ++ " sl=" ++ oStr (g.sqname.getD i none) ++ "," ++ hexN 16 (g.wgt.getD i 0).toNat ++ "," ++ toString (g.sqlen.getD i 0)
+      ++ "," ++ oStr (g.rows.getD i none) ++ "," ++ optS g.ss i ++ "," ++ optS g.sa i ++ "," ++ optS g.pp i
+      ++ "," ++ optA g.sqacc i ++ "," ++ optA g.sqdesc i
+  for t in g.gs do
+    s := s ++ " gs=" ++ oStr (some t.1) ++ "".intercalate ((List.range g.sqalloc).map fun i => "," ++ oStr (t.2.getD i none))
+  for t in g.gr do
+    s := s ++ " gr=" ++ oStr (some t.1) ++ "".intercalate ((List.range g.sqalloc).map fun i => "," ++ oStr (t.2.getD i none))
+  return s
+
+/-- the growable alignment the harness builds before it calls `esl_msa_Expand` -/
+def growInit (n named opt acc desc ngs ngr : Nat) (hasAcc hasDesc : Bool) : Grow :=
+  let g := Grow.create n
+  let g := { g with sqname := (List.range n).map fun i => if i < named then some (s!"q{i}").toUTF8.toList else none }
+  let blank : Option (List (Option Bytes × Nat)) := some (List.replicate n (none, 0))
+  let g := { g with ss := if opt % 2 == 1 then blank else none, sa := if opt / 2 % 2 == 1 then blank else none,
+                    pp := if opt / 4 % 2 == 1 then blank else none }
+  let g := if hasAcc then { g with sqacc := some ((List.replicate n none).set acc (some [0x41, 0x43])) } else g
+  let g := if hasDesc then { g with sqdesc := some ((List.replicate n none).set desc (some [0x64])) } else g
+  let g := { g with gs := (List.range ngs).map fun t => ((s!"T{t}").toUTF8.toList, (List.replicate n none).set (t % n) (some [0x76])) }
+  { g with gr := (List.range ngr).map fun t => ((s!"R{t}").toUTF8.toList, (List.replicate n none).set (t % n) (some [0x78])) }
 
 def exceptSs : Except WErr Bytes → String
   | .ok ss => "ok ss=" ++ oStr (some ss)
@@ -275,6 +304,20 @@ def step (s : S) (line : String) : S × String :=
       | .ok (m, _) => ({ s with a := some m }, "ok")
       | _ => (s, "nofuel")
     | _, _, _, _ => (s, "bad-op")
+  | "grow" :: _ =>
+    match argNat? ws "n", argNat? ws "k" with
+    | some n, some k =>
+      let acc := argInt? ws "acc" |>.getD (-1)
+      let desc := argInt? ws "desc" |>.getD (-1)
+      if n == 0 || n > 64 || k > 5 || acc ≥ n || desc ≥ n then (s, "bad-op") else
+      let g := growInit n (min ((argNat? ws "named").getD 0) n) ((argNat? ws "opt").getD 0) acc.toNat desc.toNat
+        (min ((argNat? ws "gs").getD 0) 8) (min ((argNat? ws "gr").getD 0) 8) (acc ≥ 0) (desc ≥ 0)
+      (s, growLine (expandN k g))
+    | _, _ => (s, "bad-op")
+  | "expand" :: _ =>
+    match s.a with
+    | some _ => (s, "einval exception")      -- alen != -1: "that MSA is not growable"; nothing changes
+    | none => (s, "bad-op")
   | "digitize" :: _ =>
     match s.a, (arg? ws "abc").bind abcOf with
     | some m, some a => let r := digitize a m; ({ s with a := some r.msa }, resLine r)
